@@ -78,9 +78,10 @@ def vclose(a, b, rel=1e-6):
 
 def compare(pid, cases, results, rng, tag="libccdcorr", npert=NPERT):
     """cases: list of dict(c1, c2, fns, kw); results: outputs of the narrowbtrace worker.
-    Returns (stats, mismatches): mismatches = list of (case index, fn, text)."""
-    exprs, idx = [], []
+    Returns (stats, mismatches): mismatches = list of (case index, fn, text).  The perturbed copies (near-tie
+    detection) are evaluated only for the traces that differ."""
     stats = dict(compared=0, matched=0, skipped_unstable=0, skipped_exception=0, mismatch=0, steps=0, answers={})
+    items = []
     for i, (c, r) in enumerate(zip(cases, results)):
         for fn in c["fns"]:
             o = r[fn]
@@ -88,48 +89,61 @@ def compare(pid, cases, results, rng, tag="libccdcorr", npert=NPERT):
             if "exc" in o or not o["p"] or need not in o["init1"] or need not in o["init2"]:
                 stats["skipped_exception"] += 1
                 continue
-            ex = exprs_for(o, fn, c.get("kw", {}), rng, npert)
-            idx.append((i, fn, len(exprs), len(ex)))
-            exprs += ex
-    if not exprs:
+            items.append((i, fn))
+    if not items:
         return stats, []
+    exprs = [exprs_for(results[i][fn], fn, cases[i].get("kw", {}), rng, 0)[0] for (i, fn) in items]
     outs = cm.coq_eval_lines(pid, HEADER, exprs, tag=tag, per_file=60, timeout=1500)
-    mism = []
-    for (i, fn, start, k) in idx:
+
+    def judge(i, fn, x):
         o = results[i][fn]
-        ms = []
-        for x in outs[start:start + k]:
-            dirs, code, n = parse(x)
-            ms.append(dict(dirs=dirs, code=code, n=n))
-        m0 = ms[0]
-        key = lambda m: (m["code"], m["n"], len(m["dirs"]))  # noqa
-        unstable = any(key(m) != key(m0) for m in ms[1:])
-        stats["compared"] += 1
+        dirs, code, n = parse(x)
         n_impl = min(len(o["p"]), len(o["q"]))
-        stats["steps"] += n_impl
         why = []
-        if len(m0["dirs"]) != n_impl or m0["code"] == -3:
-            why.append(f"model stops after {len(m0['dirs'])} support evaluations (code {m0['code']}), implementation made {n_impl}")
-        for kstep, (dm, di) in enumerate(zip(m0["dirs"], o["dirs"])):
+        if len(dirs) != n_impl or code == -3:
+            why.append(f"model stops after {len(dirs)} support evaluations (code {code}), implementation made {n_impl}")
+        for kstep, (dm, di) in enumerate(zip(dirs, o["dirs"])):
             if not vclose(dm, di):
                 why.append(f"search direction of evaluation {kstep}: model {dm} implementation {di}")
                 break
         for kstep, (di, d2) in enumerate(zip(o["dirs"], o["ndirs2"])):
-            if not all((-x == y) or (x != x and y != y) for x, y in zip(di, d2)):
+            if not all((-x_ == y_) or (x_ != x_ and y_ != y_) for x_, y_ in zip(di, d2)):
                 why.append(f"evaluation {kstep}: collider 2 was not queried with the negated direction")
                 break
-        if m0["code"] in (0, 1):
-            stats["answers"][f"{fn}:{bool(m0['code'])}"] = stats["answers"].get(f"{fn}:{bool(m0['code'])}", 0) + 1
-            if bool(m0["code"]) != o["ans"]:
-                why.append(f"answer: model {bool(m0['code'])} implementation {o['ans']}")
+        if code in (0, 1):
+            if bool(code) != o["ans"]:
+                why.append(f"answer: model {bool(code)} implementation {o['ans']}")
         elif not why:
-            why.append(f"model outcome code {m0['code']} but the implementation answered {o['ans']}")
+            why.append(f"model outcome code {code} but the implementation answered {o['ans']}")
+        return why, (code, n, len(dirs))
+    suspects = []
+    for (i, fn), x in zip(items, outs):
+        stats["compared"] += 1
+        stats["steps"] += min(len(results[i][fn]["p"]), len(results[i][fn]["q"]))
+        why, sig = judge(i, fn, x)
+        if sig[0] in (0, 1):
+            k = f"{fn}:{bool(sig[0])}"
+            stats["answers"][k] = stats["answers"].get(k, 0) + 1
         if why:
+            suspects.append((i, fn, why, sig))
+        else:
+            stats["matched"] += 1
+    mism = []
+    if suspects:
+        npv = max(npert, 8)
+        ex = []
+        for (i, fn, why, sig) in suspects:
+            ex += exprs_for(results[i][fn], fn, cases[i].get("kw", {}), rng, npv)[1:]
+        o2 = cm.coq_eval_lines(pid, HEADER, ex, tag=tag + "_p", per_file=60, timeout=1500)
+        for k, (i, fn, why, sig) in enumerate(suspects):
+            unstable = False
+            for x in o2[npv * k: npv * (k + 1)]:
+                d2, c2, n2 = parse(x)
+                if (c2, n2, len(d2)) != sig:
+                    unstable = True
             if unstable:
                 stats["skipped_unstable"] += 1
             else:
                 stats["mismatch"] += 1
                 mism.append((i, fn, "; ".join(why)))
-        else:
-            stats["matched"] += 1
     return stats, mism
